@@ -41,7 +41,8 @@ structure Base (G : Ctx) (s : PS) : Prop where
   wr : ∀ e ∈ (G.mu s).written, e.2.1 = e.2.2.1 % 1000
   errIn : ∀ x ∈ G.errT s, x.1 ∈ tasksS G.tree
   wrIn : ∀ e ∈ (G.mu s).written, e.1 ∈ dests G.tree
-  ns : NS s.scripts
+  /-- for a case without record splitting the remaining scripts are split-free -/
+  ns : NS G.scripts → NS s.scripts
 
 /-- popping a reply keeps the scripts split-free -/
 theorem NS.pop {scr : List (Nat × List Reply)} (h : NS scr) (t : Nat) : NS (popScripts scr t) := by
